@@ -589,9 +589,10 @@ class ZipFileSystem(FileSystem[ZipInfo]):
     def walk_folder(self, folder: str = '') -> Iterator[File[Self]]:
         """Yield files in a folder."""
         # \\ is not allowed in zips.
-        folder = folder.replace('\\', '/').casefold()
+        folder = folder.replace('\\', '/').casefold().rstrip('/')
+        prefix = folder + '/' if folder else ''  # Whole path components only: 'mat' is not inside 'materials'.
         for filename, fileinfo in self._name_to_info.items():
-            if filename.startswith(folder):
+            if filename.startswith(prefix):
                 yield File(self, fileinfo.filename, fileinfo)
 
     def open_bin(self, name: Union[str, File[Self]]) -> BinaryIO:
@@ -669,9 +670,10 @@ class VPKFileSystem(FileSystem[VPKFile]):
     def walk_folder(self, folder: str = '') -> Iterator[File[Self]]:
         """Yield files in a folder."""
         # All VPK files use forward slashes.
-        folder = folder.replace('\\', '/')
-        for file in self._name_to_file.values():
-            if file.dir.startswith(folder):
+        folder = folder.replace('\\', '/').casefold().rstrip('/')
+        prefix = folder + '/' if folder else ''  # Whole path components only, compared case-insensitively.
+        for name, file in self._name_to_file.items():
+            if name.startswith(prefix):
                 yield File(self, file.filename, file)
 
     def open_bin(self, name: Union[str, File[Self]]) -> BinaryIO:
